@@ -392,15 +392,18 @@ def eventmap_typestate(rep, idx, rule):
         rep.bad(rule, add.site, "self._sources[key] = src, index", f"expected one store into the source table, found {len(stores)}")
     else:
         st = stores[0].ast
-        key = ir.norm(ir.from_ast(st.targets[0].slice, {}))
-        val = ir.norm(ir.from_ast(st.value, {}))
+        from .common import get_fn
+        sym = get_fn(idx, add)
+        aliases = {k: v for k, v in sym.t.final_env.items() if isinstance(v, tuple) and v[0] != 'localfn'}
+        key = sym.norm(ir.from_ast(st.targets[0].slice, aliases))
+        val = sym.norm(ir.from_ast(st.value, aliases))
         # (a) guarded by an absence test on the same key
         dom = g.dominators()[stores[0].id]
         guards = []
         for d in dom:
             n = g.nodes[d]
             if n.kind == "test":
-                t, pol = ir.split_neg(ir.norm(ir.from_ast(n.ast, {})))
+                t, pol = ir.split_neg(sym.norm(ir.from_ast(n.ast, aliases)))
                 if t[0] == 'cmp' and t[1] == 'in' and t[2] == key and t[3] == ir.parse("self._sources"):
                     # the store must be on the 'absent' side
                     side = "false" if pol else "true"
@@ -438,6 +441,14 @@ def eventmap_typestate(rep, idx, rule):
     setter = idx.find_func("event:Source.event_map", "setter")
 
     def is_freeze(call, fg_):
-        return isinstance(call.func, ast.Attribute) and call.func.attr == "freeze" and \
-            isinstance(call.func.value, ast.Name) and call.func.value.id in setter.params
+        # the map given (the parameter), or the field it has just been stored in
+        if not (isinstance(call.func, ast.Attribute) and call.func.attr == "freeze"):
+            return False
+        r = call.func.value
+        if isinstance(r, ast.Name) and r.id in setter.params:
+            return True
+        if isinstance(r, ast.Attribute) and isinstance(r.value, ast.Name) and r.value.id == "self":
+            return any(isinstance(s, ast.Assign) and len(s.targets) == 1 and ast.unparse(s.targets[0]) == ast.unparse(r) and
+                       isinstance(s.value, ast.Name) and s.value.id in setter.params for s in ast.walk(setter.node))
+        return False
     must_call(rep, rule, idx, setter, is_freeze, "Source.event_map setter freezes the map it is given")
